@@ -76,6 +76,8 @@ struct Case {
     errors: Vec<(usize, bool)>,
     positive: bool,
     desc: String,
+    /// children of a second <rpc-reply> element (same message-id) inside the same framed message
+    second: Option<String>,
 }
 
 fn cases(kind: Kind, max_len: usize) -> Vec<Case> {
@@ -97,7 +99,7 @@ fn cases(kind: Kind, max_len: usize) -> Vec<Case> {
                     // the positive indication of a bare operation is an empty reply (comments aside)
                     _ => seq.iter().all(|i| *i == Item::Comment),
                 };
-                out.push(Case { kind, children, errors, positive, desc: format!("{seq:?}") });
+                out.push(Case { kind, children, errors, positive, desc: format!("{seq:?}"), second: None });
             }
         }
         Kind::Load => {
@@ -120,7 +122,7 @@ fn cases(kind: Kind, max_len: usize) -> Vec<Case> {
                         let a = render(&after, &mut n, &mut errors);
                         let children = format!("{b}<load-configuration-results>{i}</load-configuration-results>{a}");
                         let positive = inner.contains(&Item::Ok);
-                        out.push(Case { kind, children, errors, positive, desc: format!("{before:?} results{inner:?} {after:?}") });
+                        out.push(Case { kind, children, errors, positive, desc: format!("{before:?} results{inner:?} {after:?}"), second: None });
                     }
                 }
             }
@@ -129,9 +131,26 @@ fn cases(kind: Kind, max_len: usize) -> Vec<Case> {
                 let mut errors = Vec::new();
                 let mut n = 0;
                 let children = render(&seq, &mut n, &mut errors);
-                out.push(Case { kind, children, errors, positive: false, desc: format!("no results element: {seq:?}") });
+                out.push(Case { kind, children, errors, positive: false, desc: format!("no results element: {seq:?}"), second: None });
             }
         }
+    }
+    // one framed message that holds two <rpc-reply> elements with the same message-id (not a document at all):
+    // whatever the library makes of it, an error in either element must not come out as success
+    let positive_children = match kind {
+        Kind::Empty => "<ok/>",
+        Kind::Data => "<data><configuration><x>1</x></configuration></data>",
+        Kind::Bare => "",
+        Kind::Load => "<load-configuration-results><ok/></load-configuration-results>",
+    };
+    let wrap = |e: String| if kind == Kind::Load { format!("<load-configuration-results>{e}<load-error-count>1</load-error-count></load-configuration-results>") } else { e };
+    for (first_is_error, second_is_error) in [(true, false), (false, true), (true, true)] {
+        let mut errors = Vec::new();
+        let mut n = 0;
+        let mut doc = |is_error: bool| if is_error { wrap(render(&[Item::ErrE], &mut n, &mut errors)) } else { positive_children.to_string() };
+        let first = doc(first_is_error);
+        let second = doc(second_is_error);
+        out.push(Case { kind, children: first, errors, positive: true, desc: format!("two rpc-reply elements in one message: {} then {}", if first_is_error { "error" } else { "positive" }, if second_is_error { "error" } else { "positive" }), second: Some(second) });
     }
     out
 }
@@ -139,7 +158,11 @@ fn cases(kind: Kind, max_len: usize) -> Vec<Case> {
 fn run_case(case: &Case) -> (String, Result<(), Error>) {
     let mut env = establish(&std_hello(&[CAP_JUNOS])).expect("establish");
     let children = case.children.clone();
-    let reply = move |id: &str| vec![reply_doc(id, &children)];
+    let second = case.second.clone();
+    let reply = move |id: &str| match &second {
+        None => vec![reply_doc(id, &children)],
+        Some(s2) => vec![format!("{}{}", reply_doc(id, &children).trim_end_matches(crate::mem::MARKER), reply_doc(id, s2))],
+    };
     let out = match case.kind {
         Kind::Empty => env.call::<Lock, _>(|b| b.target(Datastore::Running)?.finish(), &reply),
         Kind::Data => match env.call::<Get, _>(|b| b.finish(), &reply) {
@@ -166,7 +189,7 @@ fn calibrated(i: usize, is_error: bool) -> String {
     if let Some(v) = cache.lock().unwrap().get(&key) {
         return v.clone();
     }
-    let case = Case { kind: Kind::Empty, children: rpc_error(i, if is_error { "error" } else { "warning" }, false), errors: vec![(i, is_error)], positive: false, desc: String::new() };
+    let case = Case { kind: Kind::Empty, children: rpc_error(i, if is_error { "error" } else { "warning" }, false), errors: vec![(i, is_error)], positive: false, desc: String::new(), second: None };
     let shown = match run_case(&case).1 {
         Err(Error::RpcError(errs)) if errs.len() == 1 => errs.iter().map(|e| format!("{e}")).next().unwrap_or_default(),
         other => format!("<calibration failed: {other:?}>"),
@@ -193,14 +216,14 @@ pub fn run(report: &mut Report) {
     for kind in [Kind::Empty, Kind::Data, Kind::Bare, Kind::Load] {
         for case in cases(kind, max_len) {
             evaluations += 1;
-            if !distinct.insert(format!("{kind:?}|{}", case.children)) {
+            if !distinct.insert(format!("{kind:?}|{}|{:?}", case.children, case.second)) {
                 continue;
             }
             if !case.errors.is_empty() {
                 nontrivial += 1;
             }
             let (sent, result) = run_case(&case);
-            let doc = json!({"reply_type": format!("{kind:?}"), "reply_children": case.children, "shape": case.desc});
+            let doc = json!({"reply_type": format!("{kind:?}"), "reply_children": case.children, "second_rpc_reply_children": case.second, "shape": case.desc});
             if report.want_sample() && case.errors.len() == 2 && case.positive {
                 report.sample(json!({"case": doc, "result": format!("{result:?}")}));
             }
@@ -214,7 +237,7 @@ pub fn run(report: &mut Report) {
                     outcomes[0] += 1;
                     if has_error {
                         let place = if case.kind == Kind::Load { "load-configuration-results" } else { "rpc-reply" };
-                        report.violation(&format!("C08:error-reported-as-success:{kind:?}:{place}"), &format!("a reply carrying an rpc-error of severity error was reported as success ({})", case.desc), doc);
+                        report.violation(&format!("C08:error-reported-as-success:{kind:?}:{}", if case.second.is_some() { "two-rpc-reply-elements-in-one-message" } else { place }), &format!("a reply carrying an rpc-error of severity error was reported as success ({})", case.desc), doc);
                     } else if !case.positive {
                         report.violation(&format!("C08:success-without-positive-indication:{kind:?}"), &format!("success reported for a reply without the operation's positive indication ({})", case.desc), doc);
                     }
@@ -224,7 +247,7 @@ pub fn run(report: &mut Report) {
                     // each reported error must display like the same rpc-error reported on its own
                     // (calibrated through the library itself: tag and severity identify the element)
                     let got: Vec<String> = errs.iter().map(|e| format!("{e}")).collect();
-                    let ok = got.len() == case.errors.len()
+                    let ok = case.second.is_some() || got.len() == case.errors.len()
                         && got.iter().zip(&case.errors).all(|(g, (i, is_err))| *g == calibrated(*i, *is_err))
                         && errs.len() == got.len();
                     if !ok {
